@@ -26,7 +26,7 @@ ASSUME = ['tmpfs directory offsets are stable while the directory is unchanged (
 NONTRIVIAL = ('non_preopen_dirfd', 'path_near_limit', 'listing_needs>=3_calls', 'resume', 'restart')
 NAMES = ['a', 'b.txt', 'empty', 'dir1', 'dir1/x', 'dir2', 'dir2/sub', 'dir2/sub/y', 'emptydir', 'lnk', 'dlnk', 'dangling', 'new1', 'new2',
          'dir1/new3', 'nd', 'nd/in', 'dlnk/x', 'a/b', 'missing/z', '.', '..', 'dir1/..', './a', 'dir2//sub', 'N' * 255, 'M' * 256,
-         'dir1/' + 'k' * 200, 'x y', 'éè', 'loop', 'fifo0', 'sock1', 'dir1/fifo1']
+         'dir1/' + 'k' * 200, 'x y', 'éè', 'loop', 'fifo0', 'sock1', 'dir1/fifo1', 'a/', 'dir1/', 'nd/', 'emptydir//', 'lnk/', 'dlnk/', 'new1/']
 
 
 def pad_path(b, total, absolute):
